@@ -28,9 +28,19 @@ func (e *Env) Thorough() bool { return e.Tier == "thorough" }
 
 var runners = map[string]runner{}
 
+// childHandlers answer one request line inside an isolated child process (see wvlib.Child).
+var childHandlers = map[string]func(line string) string{}
+
 func main() {
 	if len(os.Args) < 2 {
 		fmt.Fprintln(os.Stderr, "usage: wv <ID> [--tier quick|thorough] [--seed N] [--out report.json] [--replay case.json]")
+		os.Exit(2)
+	}
+	if os.Args[1] == "child" && len(os.Args) >= 3 {
+		if h, ok := childHandlers[os.Args[2]]; ok {
+			wvlib.ChildLoop(h)
+			return
+		}
 		os.Exit(2)
 	}
 	prop := os.Args[1]
